@@ -73,6 +73,48 @@ pub fn data_msg(cc: &CacheChange, reader: EntityId, src_ts: Option<u64>) -> Vec<
   to_bytes(&b.data_msg(cc, reader, w, LE, None).add_header_and_build(w.prefix))
 }
 
+/// DATA submessages a Reader cannot turn into an ordinary sample (C09, wire level). `variant`:
+/// 0 key hash + status info "disposed" for a key nobody has seen; 1 key hash + status info with no flag
+/// set; 2 key hash and no status info at all; 3 neither payload nor inline QoS; 4 serialized key (K flag)
+/// of zero bytes, disposed; 5 payload with an unknown representation identifier; 6 payload too short to
+/// decode; 7 unregistered (not disposed) by key hash.
+pub const ODD_VARIANTS: u8 = 8;
+pub fn odd_data_msg(w: GUID, sn: i64, reader: EntityId, variant: u8, src_ts: Option<u64>) -> Vec<u8> {
+  use crate::{messages::submessages::submessages::WriterSubmessage, rtps::SubmessageBody, structure::parameter_id::ParameterId};
+  let hash = KeyHash::from_pl_cdr_bytes(vec![0xE0 + variant; 16]).unwrap();
+  let cc = |dd: DDSData| CacheChange::new(w, SequenceNumber::new(sn), WriteOptions::default(), dd);
+  let cc = match variant {
+    0 => cc(DDSData::new_disposed_by_key_hash(ChangeKind::NotAliveDisposed, hash)),
+    1 | 2 | 3 => cc(DDSData::new_disposed_by_key_hash(ChangeKind::Alive, hash)),
+    4 => cc(DDSData::new_disposed_by_key(ChangeKind::NotAliveDisposed, payload(RepresentationIdentifier::CDR_LE, vec![]))),
+    5 => cc(DDSData::new(payload(RepresentationIdentifier { bytes: [0x7f, 0x7f] }, vec![0; 8]))),
+    6 => cc(DDSData::new(payload(RepresentationIdentifier::CDR_LE, vec![1]))),
+    _ => cc(DDSData::new_disposed_by_key_hash(ChangeKind::NotAliveUnregistered, hash)),
+  };
+  let mut b = MessageBuilder::new();
+  if let Some(t) = src_ts {
+    b = b.ts_msg(LE, Some(Timestamp::from_ticks(t)));
+  }
+  let mut m = b.data_msg(&cc, reader, w, LE, None).add_header_and_build(w.prefix);
+  if variant == 2 || variant == 3 {
+    for sm in m.submessages.iter_mut() {
+      if let SubmessageBody::Writer(WriterSubmessage::Data(d, flags)) = &mut sm.body {
+        if variant == 2 {
+          if let Some(pl) = d.inline_qos.as_mut() {
+            pl.parameters.retain(|p| p.parameter_id != ParameterId::PID_STATUS_INFO);
+          }
+        } else {
+          d.inline_qos = None;
+          flags.remove(crate::messages::submessages::submessages::DATA_Flags::InlineQos);
+          sm.header.flags = flags.bits();
+        }
+        sm.header.content_length = d.len_serialized() as u16;
+      }
+    }
+  }
+  to_bytes(&m)
+}
+
 /// total serialized size of the sample (incl. the 4-byte encapsulation header)
 pub fn sample_size(cc: &CacheChange) -> usize {
   cc.data_value.payload_size()
